@@ -98,7 +98,7 @@ func (t *tStructProto) structPack(m erpc.Message) error {
 func (t *tStructProto) structUnpack(m erpc.Message) error {
 	t.unpackLock.Lock()
 	defer t.unpackLock.Unlock()
-	t.rwCounter.WriteCounter.Zero()
+	t.rwCounter.ReadCounter.Zero()
 	err := readMessageBegin(t.tProtocol, m)
 	if err != nil {
 		return err
